@@ -93,6 +93,16 @@ def _round_increment(check: Check, mth: FuncInfo):
     reads = [n for n in ff.cfg.nodes if n is not inc and n.ast is not None and any(
         isinstance(x, ast.Attribute) and x.attr == '_round_num' and isinstance(x.ctx, ast.Load) for x in n.walk())]
     after = all(not ff.cfg.reaches(inc, r) for r in reads) and bool(reads)
+  if ok:
+    # the counter moves last: nothing that can fail (fetching the clients, drawing from the stream) runs after it, otherwise an
+    # exception leaves the sampler one round ahead and a retry / restart does not reproduce the round
+    inc = incs[0]
+    later = [n for n in ff.cfg.nodes if n is not inc and n.ast is not None and ff.cfg.reaches(inc, n) and not ff.cfg.reaches(n, inc) and any(
+        isinstance(x, ast.Call) and (ff.ext(x.func) or '') not in ('builtins.list', 'builtins.zip', 'builtins.tuple', 'builtins.len') for x in n.walk())]
+    check.ob('R-PURE.round-last', mth, 'self._round_num += 1 is the last effect', not later,
+             'the round counter is advanced after the cohort has been produced' if not later else
+             f'`{txt(later[0].ast)[:60]}` still runs after the round counter has moved: if it raises, the sampler has skipped a round',
+             node=inc.ast, exact=True)
   check.ob('R-PURE.round', mth, 'self._round_num += 1', ok and every and after,
            f'the round counter advances by exactly one per sample() (single site={ok}, on every path and not in a loop={every}) '
            f'and only after the current round number has been used (ok={after})')
@@ -129,6 +139,13 @@ def _get_sampler(check: Check, ci):
     recv_ok = any(v is prs_calls[0] for v in ff.expand(c.func.value)) if prs_calls else False
     kw = {k.arg: k.value for k in c.keywords}
     pop = c.args[0] if c.args else kw.get('a')
+    if isinstance(pop, ast.Attribute) and isinstance(pop.value, ast.Name) and pop.value.id == 'self' and '__init__' in ci.methods:
+      # a population array prepared once in the constructor: self.X = np.array(self._client_ids, dtype=object)
+      stores = [st.value for st in ast.walk(ci.methods['__init__'].node) if isinstance(st, ast.Assign) and len(st.targets) == 1 and txt(
+          st.targets[0]) == txt(pop)]
+      if len(stores) == 1 and not any(isinstance(x, ast.Attribute) and isinstance(x.ctx, ast.Store) and txt(x) == txt(pop)
+                                      for name, mth in ci.methods.items() if name != '__init__' for x in ast.walk(mth.node)):
+        pop = stores[0]
     pop_ok = isinstance(pop, ast.Call) and ff.ext(pop.func) == 'numpy.array' and pop.args and txt(pop.args[0]) == 'self._client_ids' and any(
         k.arg == 'dtype' and txt(k.value) in ('object', 'np.object_') for k in pop.keywords)
     rep = kw.get('replace')
@@ -202,7 +219,7 @@ def _shuffled_sampler(check: Check, ci):
   _round_increment(check, sample)
   _keys(check, sample, ff)
   # exactly num_clients next() per round
-  ok = False
+  ok = None
   for n in ff.cfg.nodes:
     if n.kind == 'for' and isinstance(n.ast.iter, ast.Call) and ff.ext(n.ast.iter.func) == 'builtins.range' and self_txt(ff, n.ast.iter.args[0]) == 'self._num_clients':
       nx = [c for st in n.ast.body for c in ast.walk(st) if isinstance(c, ast.Call) and txt(c.func) == 'next' and self_txt(ff, c.args[0]) == 'self._shuffled_clients_iter']
